@@ -17,7 +17,7 @@ package centrifuge
 //     off  operations while the client is unsubscribed (between first session and recovery)
 //     live operations after the (last) subscribe reply, each followed by a settle
 // Transcript tokens (chronological):
-//   w:P:k:n:off  w:R:k:off|-  w:X:k:off (key expired)  w:E (stream expired)  w:M (channel removed by meta TTL)  w:C
+//   w:P:k:n:off  w:R:k:off|-  w:X:k:off (key expired)  w:L:lo (stream window now (lo, top]: stream TTL expiry)  w:M (channel removed by meta TTL)  w:C
 //   q:S:cursor:off:ep  q:T:off:ep:rec  q:L:off:ep:rec  q:U (unsubscribe)      client requests
 //   rd:S | rd:T:since:lim | rd:P , ex , ret                                  broker read entered / executed / returned
 //   a:S:cursor:off:ep:entries  a:T:off:ep:pubs  a:L:off:ep:rec:state:pubs  a:err:code  a:disc:code
@@ -223,7 +223,8 @@ func verifC22Tags(key string) map[string]string {
 }
 
 // snapshot inspects the hub without side effects (a ReadStream would refresh the meta TTL / create the channel).
-func (s *verifC22Scn) snapshot() (exists bool, n int, top uint64) {
+// n is reported as the window start: the stream retains the offsets (lo, top].
+func (s *verifC22Scn) snapshot() (exists bool, lo int, top uint64) {
 	h := s.broker.mapHub
 	h.RLock()
 	defer h.RUnlock()
@@ -232,7 +233,10 @@ func (s *verifC22Scn) snapshot() (exists bool, n int, top uint64) {
 		return false, 0, 0
 	}
 	items, _, _ := c.stream.Get(0, false, -1, false)
-	return true, len(items), c.stream.Top()
+	if len(items) == 0 {
+		return true, int(c.stream.Top()), c.stream.Top()
+	}
+	return true, int(items[0].Offset) - 1, c.stream.Top()
 }
 
 func (s *verifC22Scn) resnap() {
@@ -283,13 +287,15 @@ func (s *verifC22Scn) runOp(op string) {
 			ms -= step
 			time.Sleep(time.Duration(step) * time.Millisecond)
 			synctest.Wait()
-			ex, n, top := s.snapshot()
+			ex, lo, top := s.snapshot()
 			if s.snapExists && !ex {
 				s.tok("w:M")
-			} else if ex && s.snapExists && s.snapLen > 0 && n == 0 && top == s.snapTop {
-				s.tok("w:E")
+			} else if ex && s.snapExists && lo != s.snapLen {
+				// the stream window moved while time passed: stream TTL expiry (and/or size trimming by
+				// key-expiry removals, which the model derives itself)
+				s.tok(fmt.Sprintf("w:L:%d", lo))
 			}
-			s.snapExists, s.snapLen, s.snapTop = ex, n, top
+			s.snapExists, s.snapLen, s.snapTop = ex, lo, top
 		}
 	default:
 		s.herr = "bad-op"
@@ -374,6 +380,7 @@ func (s *verifC22Scn) collect(id uint32, cl *verifC22Ref) *verifC22Frame {
 			s.tok(fmt.Sprintf("p:disc:%d", code))
 		}
 		cl.told = true
+		cl.phase = "done"
 	}
 	return reply
 }
